@@ -238,6 +238,27 @@ def r8_str_slice(sig, body):
     return sig, body, n
 
 
+def r16_ok_or_else(sig, body):
+    """R16: `.ok_or_else(|| E)` / `.ok_or_else(|| { E })` -> `.ok_or(E)` (E is a pure error constructor after R1; laziness is unobservable)"""
+    n = 0
+    while True:
+        m = re.search(r'\.ok_or_else\s*\(', body)
+        if not m:
+            break
+        op = m.end() - 1
+        cl = _match_paren(body, op)
+        inner = body[op + 1:cl].strip()
+        mm = re.match(r'\|\|\s*(.*)$', inner, re.S)
+        if not mm:
+            break
+        e = mm.group(1).strip()
+        if e.startswith('{') and e.endswith('}'):
+            e = e[1:-1].strip()
+        body = body[:m.start()] + '.ok_or(%s)' % e + body[cl + 1:]
+        n += 1
+    return sig, body, n
+
+
 RULES = {
     'R1': r1_error_macro,
     'R3': r3_continue_guard,
@@ -250,6 +271,7 @@ RULES = {
     'R12': r12_std_paths,
     'R13': r13_format,
     'R15': r15_ref_pattern,
+    'R16': r16_ok_or_else,
     'R14': r14_intern,
 }
 
